@@ -49,7 +49,7 @@ def run(ctx):
     hreal = cc.build_real(ctx)
     r = ctx.rng
     pairs = [(u, g) for u in IDS for g in IDS]
-    pairs += [(r.randrange(2 ** 32), r.randrange(2 ** 32)) for _ in range(100 if ctx.tier == "quick" else 3000)]
+    pairs += [(r.randrange(2 ** 32), r.randrange(2 ** 32)) for _ in range(100 if ctx.tier == "quick" else 1000)]
     # (real-bench: the daemon's --benchmark mode switches off replay detection and timers, nothing else: identity still attested)
     for variant, h, extra in (("toy", htoy, ""), ("real", hreal, ""), ("real-bench", hreal, " bench=1")):
         if not h or (variant == "toy" and not drv):      # (already a failed obligation; the other variant still runs)
